@@ -243,6 +243,40 @@ theorem rot_invRot (m : Iso3 K) (v : V3 K)
   · linear_combination (4 * ((m.qi * m.qi + m.qj * m.qj + m.qk * m.qk) * y - m.qj * (m.qi * x + m.qj * y + m.qk * z))) * hq
   · linear_combination (4 * ((m.qi * m.qi + m.qj * m.qj + m.qk * m.qk) * z - m.qk * (m.qi * x + m.qj * y + m.qk * z))) * hq
 
+/-! ## small general facts -/
+
+/-- casting along `l·d` re-parametrises the ray: `pt_{l·d}(s) = pt_d(l·s)` -/
+theorem rayPt_scale (ray : Ray3 K) (l s : K) :
+    letI := fieldNum K sq
+    rayPt sq ⟨ray.o, ray.d.smul l⟩ s = rayPt sq ray (l * s) := by
+  simp only [rayPt, Ray3.pointAt, V3.add, V3.smul, mul_assoc]
+
+/-- filtering an unbounded first hit by `t ≤ max` gives the first hit on `[0,max]` -/
+theorem firstHitU_filter {α : Type} (S : α → Prop) (pt : K → α) (max : K) (r : Option K) (h : FirstHitU S pt r) :
+    FirstHit S pt max (r.filter fun t => decide (t ≤ max)) := by
+  cases r with
+  | none => exact fun s h1 _ => h s h1
+  | some t =>
+    obtain ⟨h1, h2, h3⟩ := h
+    by_cases hm : t ≤ max
+    · have hf : (some t).filter (fun t => decide (t ≤ max)) = some t := by simp [Option.filter, hm]
+      rw [hf]
+      exact ⟨h1, hm, h2, h3⟩
+    · have hf : (some t).filter (fun t => decide (t ≤ max)) = none := by simp [Option.filter, hm]
+      rw [hf]
+      intro s hs hsm
+      exact h3 s hs (lt_of_le_of_lt hsm (not_le.1 hm))
+
+theorem lawfulSqrt_mul_self (hs : LawfulSqrt sq) (r : K) (hr : 0 ≤ r) : sq (r * r) = r :=
+  (mul_self_inj (hs.nonneg _ (mul_self_nonneg r)) hr).1 (hs.sq_mul _ (mul_self_nonneg r))
+
+/-- `BallAt` at the origin is `Ball.Mem3` -/
+theorem ballAt_zero (r : K) (p : V3 K) :
+    letI := fieldNum K sq
+    BallAt sq V3.zero r p ↔ (Ball.mk r).Mem3 p := by
+  unfold BallAt; rw [sub_zero_v3]
+
+
 /-! ## half-space helpers -/
 
 /-- boundary plane of the half-space: `n·p = 0` -/
@@ -1136,6 +1170,13 @@ theorem seg_cast_parallel_eq (s : Segment2 K) (ray : Ray2 K) (max : K) (solid : 
   simp only at hpar
   subst hpar
   simp only [if_true]
+
+
+/-- 2-D version of `rayPt_scale` -/
+theorem rayPt2_scale (ray : Ray2 K) (l u : K) :
+    letI := fieldNum K sq
+    rayPt2 sq ⟨ray.o, ray.d.smul l⟩ u = rayPt2 sq ray (l * u) := by
+  simp only [rayPt2, Ray2.pointAt, V2.add, V2.smul, mul_assoc]
 
 
 end C04
